@@ -3,7 +3,7 @@ role exactly once; decoded text meets only non-requoting quoters, URL text only 
 of their own role; helper parameters are called with the kind their body requires."""
 from __future__ import annotations
 
-from ..interp import alternatives, analyze
+from ..interp import deep_walk, alternatives, analyze
 from ..kinds import CONST, DEC, NEUTRAL, NONE_K, NUM, OPQ, RAW, UNK, Kinds
 from ..model import AnalysisError, Model
 from ..report import Ctx, where
@@ -57,6 +57,42 @@ def _bad(kinds, allowed):
     return sorted(x for x in kinds if x not in NEUTRAL and x != OPQ and (allowed is not None and x not in allowed))
 
 
+def _unmerged(model, fi, bind, r):
+    """The function analysed with every path kept apart (merging keeps facts per value and loses correlations such as
+    "not encoded => path empty"); the merged result when that is too large."""
+    try:
+        return analyze(model, fi, bind or None, merge=False)
+    except AnalysisError:
+        return r
+
+
+def _k1_sites(K, fi, pk, r):
+    sites = {}
+    for e in r.by_kind("call"):
+        name = e.func[-1] if e.func[0] == "global" else None
+        if name in SINKS:
+            for pos, a in zip(SINKS[name], e.args):
+                if ALLOWED[pos] is None or a[0] == "star":
+                    continue
+                kd = K.kind(a, e.state.facts, fi, pk, r)
+                bad = _bad(kd, ALLOWED[pos])
+                sites.setdefault((id(e.node), pos), [e.node, f"{name}(.. {pos}={show(a)[:70]} ..)", pos, []])[3].append((bad, sorted(kd)))
+        elif name == "build_pre_encoded_url":
+            for a in e.args:
+                kd = K.kind(a, e.state.facts, fi, pk, r)
+                bad = sorted(x for x in kd if x in (DEC, RAW, UNK))
+                sites.setdefault((id(e.node), show(a)), [e.node, f"{name}(.. {show(a)[:40]} ..)", "pre-encoded", []])[3].append((bad, sorted(kd)))
+    for e in r.by_kind("store_attr"):
+        if fi.name in SINKS:
+            break       # the sink itself: its arguments are checked at every call site
+        if e.obj[0] == "new" and e.attr in SLOT_POS and ALLOWED[SLOT_POS[e.attr]] is not None:
+            pos = SLOT_POS[e.attr]
+            kd = K.kind(e.value, e.state.facts, fi, pk, r)
+            bad = _bad(kd, ALLOWED[pos])
+            sites.setdefault((id(e.node), pos), [e.node, f"<new URL>.{e.attr} = {show(e.value)[:70]}", pos, []])[3].append((bad, sorted(kd)))
+    return sites
+
+
 def k1(ctx: Ctx, K: Kinds, only=None):
     """Constructor sinks receive encoded text of the right role."""
     model = ctx.model
@@ -64,29 +100,11 @@ def k1(ctx: Ctx, K: Kinds, only=None):
     ctx.rule(rule, floor=15 if not only else 3, what="every constructor sink receives encoded text of that component's role (never decoded / raw URL text)")
     for fi, bind, pk, r in contexts(K, model, only):
         ctx.functions.add(fi.qual)
-        sites = {}
-        for e in r.by_kind("call"):
-            name = e.func[-1] if e.func[0] == "global" else None
-            if name in SINKS:
-                for pos, a in zip(SINKS[name], e.args):
-                    if ALLOWED[pos] is None or a[0] == "star":
-                        continue
-                    kd = K.kind(a, e.state.facts, fi, pk, r)
-                    bad = _bad(kd, ALLOWED[pos])
-                    sites.setdefault((id(e.node), pos), [e.node, f"{name}(.. {pos}={show(a)[:70]} ..)", pos, []])[3].append((bad, sorted(kd)))
-            elif name == "build_pre_encoded_url":
-                for a in e.args:
-                    kd = K.kind(a, e.state.facts, fi, pk, r)
-                    bad = sorted(x for x in kd if x in (DEC, RAW, UNK))
-                    sites.setdefault((id(e.node), show(a)), [e.node, f"{name}(.. {show(a)[:40]} ..)", "pre-encoded", []])[3].append((bad, sorted(kd)))
-        for e in r.by_kind("store_attr"):
-            if fi.name in SINKS:
-                break       # the sink itself: its arguments are checked at every call site
-            if e.obj[0] == "new" and e.attr in SLOT_POS and ALLOWED[SLOT_POS[e.attr]] is not None:
-                pos = SLOT_POS[e.attr]
-                kd = K.kind(e.value, e.state.facts, fi, pk, r)
-                bad = _bad(kd, ALLOWED[pos])
-                sites.setdefault((id(e.node), pos), [e.node, f"<new URL>.{e.attr} = {show(e.value)[:70]}", pos, []])[3].append((bad, sorted(kd)))
+        sites = _k1_sites(K, fi, pk, r)
+        if any(b for _n, _c, _p, results in sites.values() for b, _k in results):
+            r2 = _unmerged(model, fi, bind, r)      # a site is reported only if it is still unproved path by path
+            if r2 is not r:
+                sites = _k1_sites(K, fi, pk, r2)
         for node, cons, pos, results in sites.values():
             ctx.instance(rule)
             bads = [b for b, _k in results if b]
@@ -96,33 +114,42 @@ def k1(ctx: Ctx, K: Kinds, only=None):
                    sample=f"kinds {results[0][1]}")
 
 
+def _k23_sites(K, fi, pk, r, r2, r3):
+    sites = {}
+    for e in r.by_kind("call"):
+        q = K.quoter_of(e.func)
+        if q is None or not e.args:
+            continue
+        name, info = q
+        a = e.args[0]
+        kd = K.kind(a, e.state.facts, fi, pk, r)
+        if info[0] == "unquoter":
+            bad = sorted(x for x in kd if x in (DEC, UNK))
+            msg = f"{name} is applied to text of kind {bad}: decoded text would be decoded twice ('%2541' -> '%41' -> 'A')"
+            rule = r3
+        elif info[1]:       # requoter
+            bad = sorted(x for x in kd if x in (DEC, UNK))
+            msg = f"requoter {name} is applied to text of kind {bad}: escapes typed by the caller as literal text would be reinterpreted"
+            rule = r2
+        else:
+            bad = sorted(x for x in kd if x.startswith("ENC") or x in (RAW, OPQ, UNK))
+            msg = f"non-requoting {name} is applied to text of kind {bad}: already-encoded text would be encoded twice ('%20' -> '%2520')"
+            rule = r2
+        sites.setdefault((id(e.node), rule), [e.node, f"{name}({show(a)[:70]})", rule, msg, []])[4].append((bad, sorted(kd)))
+    return sites
+
+
 def k2_k3(ctx: Ctx, K: Kinds):
     model = ctx.model
     r2, r3 = "K2", "K3"
     ctx.rule(r2, floor=15, what="decoded text meets only non-requoting quoters (once), URL text only requoters")
     ctx.rule(r3, floor=8, what="unquoters read encoded text")
     for fi, bind, pk, r in contexts(K, model):
-        sites = {}
-        for e in r.by_kind("call"):
-            q = K.quoter_of(e.func)
-            if q is None or not e.args:
-                continue
-            name, info = q
-            a = e.args[0]
-            kd = K.kind(a, e.state.facts, fi, pk, r)
-            if info[0] == "unquoter":
-                bad = sorted(x for x in kd if x in (DEC, UNK))
-                msg = f"{name} is applied to text of kind {bad}: decoded text would be decoded twice ('%2541' -> '%41' -> 'A')"
-                rule = r3
-            elif info[1]:       # requoter
-                bad = sorted(x for x in kd if x in (DEC, UNK))
-                msg = f"requoter {name} is applied to text of kind {bad}: escapes typed by the caller as literal text would be reinterpreted"
-                rule = r2
-            else:
-                bad = sorted(x for x in kd if x.startswith("ENC") or x in (RAW, OPQ, UNK))
-                msg = f"non-requoting {name} is applied to text of kind {bad}: already-encoded text would be encoded twice ('%20' -> '%2520')"
-                rule = r2
-            sites.setdefault((id(e.node), rule), [e.node, f"{name}({show(a)[:70]})", rule, msg, []])[4].append((bad, sorted(kd)))
+        sites = _k23_sites(K, fi, pk, r, r2, r3)
+        if any(b for _n, _c, _r, _m, results in sites.values() for b, _k in results):
+            rr = _unmerged(model, fi, bind, r)
+            if rr is not r:
+                sites = _k23_sites(K, fi, pk, rr, r2, r3)
         for node, cons, rule, msg, results in sites.values():
             ctx.instance(rule)
             bads = [b for b, _k in results if b]
@@ -300,6 +327,57 @@ def k5(ctx: Ctx, K: Kinds):
                 ctx.ob(rule, fi.qual, show(e.value)[:80], ok,
                        f"{name}() is told its text is already encoded by something other than a documented `encoded` flag: "
                        "unquoted text would be stored", where(fi, e.node), sample="encoded omitted / False / the caller's documented flag")
+
+
+# methods that quote their text argument and store it: handing them text decoded from the same object is a round trip
+_REQUOTING_METHODS = {"with_name", "with_suffix", "with_path", "with_user", "with_password", "with_fragment", "joinpath",
+                      "_make_child", "__truediv__"}
+
+
+def k_roundtrip(ctx: Ctx, K: Kinds):
+    """Decoding a stored component and quoting it again is not the identity: escapes of characters the component keeps
+    encoded (%2F and %2B in a path, %25 before two hex digits, ...) come back as the bare character, or make the
+    validation of the re-quoted text fail. A modifier that keeps part of a component must splice the *raw* text; what
+    it reads through a decoded accessor of the same object must never reach a (non-query) quoter or a quoting modifier."""
+    model = ctx.model
+    rule = "K-RT"
+    ctx.rule(rule, floor=0, what="no stored path / userinfo / fragment text is decoded and re-quoted (lossy for protected escapes)")
+    S_ = ("param", "self")
+    n = 0
+    for fi in funcs(model):
+        if fi.cls != "URL":
+            continue
+        r = analyze(model, fi)
+        seen = set()
+        for e in r.by_kind("call"):
+            sink = None
+            q = K.quoter_of(e.func)
+            if q and q[1][0] != "unquoter" and q[1][0] not in ("query", "querypart"):
+                sink = f"quoter {q[0]}"
+            elif e.func[0] == "attr" and e.func[1] == S_ and e.func[2] in _REQUOTING_METHODS:
+                sink = f"self.{e.func[2]}()"
+            if sink is None or id(e.node) in seen:
+                continue
+            seen.add(id(e.node))
+            n += 1
+            ctx.instance(rule)
+            texts = [a for a in tuple(e.args) + tuple(v for _k, v in e.kwargs) if a[0] not in ("const",)]
+            own = []
+            for a in texts:
+                for t in deep_walk(r, a):
+                    if t[0] == "attr" and t[1] == S_ and model.has_func(f"_url.URL.{t[2]}") and \
+                            unquoters_behind(K, model, t, fi, set()):
+                        own.append(f"self.{t[2]}")
+                    elif t[0] == "call" and K.quoter_of(t[1]) and K.quoter_of(t[1])[1][0] == "unquoter" and \
+                            any(x[0] == "attr" and x[1] == S_ for x in walk(t)):
+                        own.append(show(t)[:40])
+            ctx.ob(rule, fi.qual, f"{sink}({', '.join(show(a)[:40] for a in texts)})", not own,
+                   f"text decoded from this object ({', '.join(sorted(set(own)))}) is quoted again by {sink}: decoding and "
+                   "re-quoting is lossy for escapes the component keeps encoded (a%2Fb -> a/b, a%2Bb -> a+b)",
+                   where(fi, e.node), sample="argument text is not derived from a decoded accessor of self")
+    if not n:
+        ctx.instance(rule)
+        ctx.ob(rule, "<package>", "re-quoting of own decoded text", True, sample="no quoting of own text", nontrivial=False)
 
 
 def k_mix(ctx: Ctx, K: Kinds):
